@@ -304,7 +304,9 @@ impl SyntaxTemplate {
         &self,
         substitutions: &HashMap<String, (Datum, Vec<Datum>)>,
     ) -> Result<Vec<Datum>, SchemeError> {
-        let location = self.location;
+        // data built from the template carry no source location: the template's own position
+        // (in grammar.sld or in a define-syntax form) says nothing about where the macro is used
+        let location = None;
         match &self.data {
             SyntaxTemplateBody::Pair(list) => {
                 let mut substituted_pair_items = vec![];
@@ -357,7 +359,7 @@ impl SyntaxTemplate {
                 Ok(vec![DatumBody::Primitive(p.clone()).locate(location)])
             }
             SyntaxTemplateBody::Ellipsis => {
-                located_error!(SyntaxError::UnexpectedTemplate(self.clone()), location)
+                located_error!(SyntaxError::UnexpectedTemplate(self.clone()), self.location)
             }
         }
     }
@@ -386,7 +388,7 @@ impl SyntaxTemplate {
                     DatumBody::Pair(Box::new(GenericPair::from_pair_iter(
                         new_list_elements.into_iter(),
                     )?))
-                    .locate(template.location),
+                    .no_locate(),
                 )
             }
             SyntaxTemplateBody::Vector(vec) => {
@@ -397,7 +399,7 @@ impl SyntaxTemplate {
                         None => return Ok(None),
                     }
                 }
-                Some(DatumBody::Vector(new_vec).locate(template.location))
+                Some(DatumBody::Vector(new_vec).no_locate())
             }
             SyntaxTemplateBody::Identifier(var) => match substitutions.get(var) {
                 Some((_, vec)) => {
@@ -407,10 +409,10 @@ impl SyntaxTemplate {
                         vec.get(item_index).cloned()
                     }
                 }
-                None => Some(DatumBody::Symbol(var.clone()).locate(template.location)),
+                None => Some(DatumBody::Symbol(var.clone()).no_locate()),
             },
             SyntaxTemplateBody::Primitive(p) => {
-                Some(DatumBody::Primitive(p.clone()).locate(template.location))
+                Some(DatumBody::Primitive(p.clone()).no_locate())
             }
             SyntaxTemplateBody::Ellipsis => {
                 return located_error!(
